@@ -157,13 +157,6 @@ def r3_clock_table(L, repo):
     ci, fd = repo.need_method("transceiver", "Transceiver", "power_event_handler")
     fn = "Transceiver.power_event_handler"
     subst = deep_subst(fd)
-    # the block guarded by `self.clck_gen is not None`
-    blocks = [n for n in ast.walk(fd) if isinstance(n, ast.If) and
-              literals(n.test, True) == {("None is self.clck_gen", False)}]
-    L.require("C12.R3", F, fn, "clock section guarded by `self.clck_gen is not None`", 1, len(blocks))
-    if len(blocks) != 1:
-        return
-    blk = blocks[0]
 
     def event(st):
         if isinstance(st, ast.Expr) and isinstance(st.value, ast.Call):
@@ -173,89 +166,116 @@ def r3_clock_table(L, repo):
                               ("self.clck_gen.start()", "start"), ("self.clck_gen.stop()", "stop")):
                 if t == pat:
                     return name
-            if t.startswith("log."):
-                return None
-            return ("other", t[:50])
-        if isinstance(st, ast.Assign):
-            t = canon(st.targets[0])
-            if t in subst or isinstance(st.targets[0], ast.Name):
-                return None
-            return ("store", canon(st)[:50])
-        return ("other", canon(st)[:50])
+            if "clck_links" in t or "clck_gen" in t:
+                return ("other", t[:50])
+            return None
+        return None
 
+    # decision table of the whole handler, restricted to clock actions
     W = Walker(event, subst)
-    A_R, A_I, A_G, A_N = "self.running", "self.clck_if in self.clck_gen.clck_links", \
-        "self.clck_gen.running", "self.clck_gen.clck_links"
-    atoms = W.atoms(blk.body)
-    unknown = [a for a in atoms if a not in (A_R, A_I, A_G, A_N)]
-    for a in (A_R, A_I, A_G, A_N):
+    A_R, A_I, A_G, A_N, A_C = "self.running", "self.clck_if in self.clck_gen.clck_links", \
+        "self.clck_gen.running", "self.clck_gen.clck_links", "None is self.clck_gen"
+    known = (A_R, A_I, A_G, A_N, A_C)
+    atoms = W.atoms(fd.body)
+    unknown = [a for a in atoms if a not in known]
+    for a in known:
         if a not in atoms:
             atoms.append(a)
-    # conditions outside the specified four are kept as extra columns: a row only passes if the actions are
-    # the specified ones whatever the extra condition's value
-    atoms, rows = W.table(blk.body, atoms)
-    # all other statements of the function that call clock actions must be inside the block
-    for c in calls_in(fd):
-        t = canon(c, subst)
-        if t.startswith("self.clck_gen.clck_links.") or t in ("self.clck_gen.start()", "self.clck_gen.stop()"):
-            inside = any(c is x for x in ast.walk(blk))
-            L.ob("C12.R3", F, fn, "clock action `%s` only when a clock generator is attached" % t, "inside the guarded block",
-                 "outside", inside, c.lineno)
+    if len(atoms) > 10:
+        raise AnalysisError("power_event_handler: too many branch atoms: %s" % atoms)
+    atoms, rows = W.table(fd.body, atoms)
     n = 0
     for vals, ev in sorted(rows.items()):
         a = dict(zip(atoms, vals))
         want = []
-        # link update first ...
-        if not a[A_R] and a[A_I]:
-            want.append("remove")
-        elif a[A_R] and not a[A_I]:
-            want.append("append")
-        # ... then start/stop on the *updated* list.  The atom A_N is the
-        # list's truthiness when the second chain is evaluated.
-        if not a[A_G] and a[A_N]:
-            want.append("start")
-        elif a[A_G] and not a[A_N]:
-            want.append("stop")
+        if not a[A_C]:
+            # link update first ...
+            if not a[A_R] and a[A_I]:
+                want.append("remove")
+            elif a[A_R] and not a[A_I]:
+                want.append("append")
+            # ... then start/stop on the *updated* list (A_N = the list's truthiness at that point)
+            if not a[A_G] and a[A_N]:
+                want.append("start")
+            elif a[A_G] and not a[A_N]:
+                want.append("stop")
         n += 1
         extra = "".join(" %s=%d" % (u[:40], a[u]) for u in unknown)
-        L.require("C12.R3", F, fn, "clock decision row running=%d linked=%d gen_running=%d links_nonempty=%d%s" % (
-            a[A_R], a[A_I], a[A_G], a[A_N], extra), want, list(ev))
-    L.floor("C12.R3", "decision-table rows", n, 16)
-    # order: link update statements precede start/stop statements
-    order = []
-    for st in blk.body:
-        for c in calls_in(st):
-            t = canon(c, subst)
-            if t.endswith(".remove(self.clck_if)") or t.endswith(".append(self.clck_if)"):
-                order.append(("link", c.lineno))
-            if t in ("self.clck_gen.start()", "self.clck_gen.stop()"):
-                order.append(("gen", c.lineno))
-    kinds = [k for k, _ in sorted(order, key=lambda x: x[1])]
-    L.ob("C12.R3", F, fn, "generator start/stop is decided after the link list was updated",
-         "link updates before start/stop", kinds, kinds == sorted(kinds, key=lambda k: k != "link"))
-    # the block follows the propagation loop (self.running already updated)
-    loops = [n for n in fd.body if isinstance(n, ast.For)]
-    if loops:
-        L.ob("C12.R3", F, fn, "clock section runs after the power state was propagated", "after loop",
-             "line %d vs %d" % (blk.lineno, loops[0].lineno), blk.lineno > loops[0].end_lineno, blk.lineno)
+        L.require("C12.R3", F, fn, "clock decision row has_clock=%d running=%d linked=%d gen_running=%d links_nonempty=%d%s" % (
+            not a[A_C], a[A_R], a[A_I], a[A_G], a[A_N], extra), want, list(ev))
+    L.floor("C12.R3", "decision-table rows", n, 32)
+    # order: the clock section runs after the power state was propagated (self.running already updated)
+    stores = [x for x in ast.walk(fd) if isinstance(x, ast.Attribute) and x.attr == "running" and isinstance(x.ctx, ast.Store)]
+    acts = [c for c in calls_in(fd) if event(ast.Expr(value=c)) in ("remove", "append", "start", "stop")]
+    cfg = CFG(fd)
+    for c in acts:
+        for st_ in stores:
+            L.ob("C12.R3", F, fn, "clock action `%s` is decided after the power state was propagated" % canon(c, subst)[:50],
+                 "not followed by a store to running", "", not cfg.reachable(cfg.node_of(c), cfg.node_of(st_)), c.lineno)
+    L.floor("C12.R3", "clock actions", len(acts), 4)
 
 
 def r3b_clckgen_running(L, repo):
-    """CLCKGen.running / start / stop consistent: start sets _thread, stop joins and resets."""
+    """CLCKGen.running / stop consistent: running iff a thread exists and is alive; stop joins and resets."""
+    from dtable import eval_bool, collect_atoms
     FC = rel("clck_gen")
     L.unit(FC)
     ci, run = repo.need_method("clck_gen", "CLCKGen", "running")
-    W = Walker(lambda st: ("ret", canon(st.value)) if isinstance(st, ast.Return) else None)
-    atoms, rows = W.table(run.body)
-    L.require("C12.R3", FC, "CLCKGen.running", "running is False without a thread, else thread liveness",
-              {(False,): (("ret", "self._thread.is_alive()"),), (True,): (("ret", "False"),)},
-              rows if atoms == ["None is self._thread"] else {"atoms": atoms})
+    A_T, A_L = "None is self._thread", "self._thread.is_alive()"
+    rets = []
+
+    def evr(st):
+        if isinstance(st, ast.Return):
+            rets.append(st.value)
+            return ("ret",)
+        return None
+    W = Walker(evr)
+    atoms = W.atoms(run.body)
+    for r_ in [x.value for x in ast.walk(run) if isinstance(x, ast.Return) and x.value is not None]:
+        collect_atoms(r_, None, W.norm, atoms)
+    unknown = [a for a in atoms if a not in (A_T, A_L)]
+    for a in (A_T, A_L):
+        if a not in atoms:
+            atoms.append(a)
+    import itertools
+    for vals in itertools.product([False, True], repeat=len(atoms)):
+        a = dict(zip(atoms, vals))
+        del rets[:]
+        W.locals = {}
+        W.walk(run.body, dict(a), [])
+        if len(rets) != 1:
+            raise AnalysisError("CLCKGen.running: no single return on a path")
+        try:
+            got = bool(eval_bool(rets[0], a, None, W.norm))
+        except AnalysisError:
+            raise AnalysisError("CLCKGen.running: return value unclassifiable: %s" % canon(rets[0]))
+        want = (not a[A_T]) and a[A_L]
+        extra = "".join(" %s=%d" % (u[:40], a[u]) for u in unknown)
+        L.require("C12.R3", FC, "CLCKGen.running", "running iff a thread exists and is alive [no_thread=%d alive=%d%s]" % (a[A_T], a[A_L], extra),
+                  want, got)
     ci, stop = repo.need_method("clck_gen", "CLCKGen", "stop")
-    txt = [canon(s) for s in stop.body if not (isinstance(s, ast.Expr) and isinstance(s.value, ast.Constant))]
+
+    def evs(st):
+        if isinstance(st, ast.Expr) and isinstance(st.value, ast.Call):
+            t = canon(st.value)
+            return None if t.startswith("log.") else t
+        if isinstance(st, ast.Assign) and len(st.targets) == 1 and not isinstance(st.targets[0], ast.Name):
+            return canon(st)
+        return None
+    W2 = Walker(evs)
+    atoms = W2.atoms(stop.body)
+    unknown = [a for a in atoms if a != A_T]
+    if A_T not in atoms:
+        atoms.append(A_T)
+    atoms, rows = W2.table(stop.body, atoms)
     need = ["self._breaker.set()", "self._thread.join()", "self._thread = None", "self._breaker.clear()"]
-    pos = [next((i for i, t in enumerate(txt) if t == nd), -1) for nd in need]
-    L.ob("C12.R3", FC, "CLCKGen.stop", "stop(): set breaker, join, forget thread, clear breaker (in this order)",
-         need, txt, all(p >= 0 for p in pos) and pos == sorted(pos))
+    for vals, evs_ in sorted(rows.items()):
+        a = dict(zip(atoms, vals))
+        got = [e for e in evs_ if e in need or "join" in str(e) or "_breaker" in str(e)]
+        want = [] if a[A_T] else need
+        extra = "".join(" %s=%d" % (u[:40], a[u]) for u in unknown)
+        L.require("C12.R3", FC, "CLCKGen.stop", "stop(): set breaker, join, forget thread, clear breaker in this order; nothing without a thread [no_thread=%d%s]" % (
+            a[A_T], extra), want, got)
 
 
 def r4_power_cmds(L, repo):
